@@ -134,6 +134,12 @@ class Monitor(explore.BaseMonitor):
             self.valid_peer_open = True
         if chosen.name == 'established':
             self.peer_ka = True
+        # what the session negotiated stays what it is for as long as the session lasts (nothing that happens to another, older
+        # connection of the peering may touch it)
+        if ref.st in (S.OPENCONFIRM, S.ESTABLISHED) and ref.H is not None and reported in ('OPENCONFIRM', 'ESTABLISHED'):
+            if w.fsm.hold_time != ref.H or (ref.H and abs(w.fsm.keep_alive_time - ref.H / 3.0) > 1e-6):
+                v.append(('C01|%s|%s|hold / keepalive time of the running session is not the negotiated one' % (label, evname),
+                          {'negotiated_hold': ref.H, 'fsm_hold_time': w.fsm.hold_time, 'fsm_keep_alive_time': w.fsm.keep_alive_time}))
         # clause (i): Established only after OPEN+KA both ways on the current connection
         if reported == 'ESTABLISHED':
             rd = w.readable()
